@@ -267,7 +267,8 @@ func ContinueReadBodyStream(req *protocol.Request, zr network.Reader, maxBodySiz
 			if len(req.MultipartFormBoundary()) > 0 && len(req.Header.PeekContentEncoding()) == 0 {
 				err := protocol.ParseMultipartForm(zr.(io.Reader), req, contentLength, consts.DefaultMaxInMemoryFileSize)
 				if err != nil {
-					req.Reset()
+					// (the head stays: the error response and the tracers still refer to it)
+					req.ResetBody()
 				}
 				return err
 			}
@@ -301,7 +302,7 @@ func ContinueReadBodyStream(req *protocol.Request, zr network.Reader, maxBodySiz
 			req.ConstructBodyStream(bodyBuf, ext.AcquireBodyStream(bodyBuf, zr, req.Header.Trailer(), contentLength))
 			return nil
 		}
-		req.Reset()
+		req.ResetBody()
 		return err
 	}
 
@@ -325,7 +326,8 @@ func ContinueReadBody(req *protocol.Request, r network.Reader, maxBodySize int, 
 			if len(req.MultipartFormBoundary()) > 0 && len(req.Header.PeekContentEncoding()) == 0 {
 				err := protocol.ParseMultipartForm(r.(io.Reader), req, contentLength, consts.DefaultMaxInMemoryFileSize)
 				if err != nil {
-					req.Reset()
+					// (the head stays: the error response and the tracers still refer to it)
+					req.ResetBody()
 				}
 				return err
 			}
@@ -359,7 +361,7 @@ func ContinueReadBody(req *protocol.Request, r network.Reader, maxBodySize int, 
 	bodyBuf.Reset()
 	bodyBuf.B, err = ext.ReadBody(r, contentLength, maxBodySize, bodyBuf.B)
 	if err != nil {
-		req.Reset()
+		req.ResetBody()
 		return err
 	}
 
